@@ -69,6 +69,21 @@ static Case cases[] = {
     {"json_blank", [] { return js_undef("   ", 3) ? 0 : 1; }},
     {"json_backslash_end", [] { return js_undef("[\"a\\", 4) ? 0 : 1; }},
     {"json_keyword_nul", [] { return js_undef("[true\0\0]", 8) ? 0 : 1; }},
+    {"json_numeral_just_beyond_dbl_max", [] {
+         int bad = 0;
+         const char *docs[] = {"[4e308]", "[905E+306]", "[9.99e308]", "[-4e308]", "[2e308]"};
+         for (const char *d : docs) {
+             Value<char> v = JSON::Parse(d, (SizeT)strlen(d));
+             if (v.IsUndefined()) continue;           // rejected: fine
+             const Value<char> *x = v.GetValue(0);
+             const double r = (x != nullptr) ? x->GetDouble() : 0.0;
+             if (!(r > 1.7e308 || r < -1.7e308 || r != r)) {   // infinity or NaN are acceptable, a finite value is not
+                 printf("expected inf/nan/rejection, got %g for %s\n", r, d);
+                 ++bad;
+             }
+         }
+         return bad;
+     }},
     {"json_exponent_wraps_32_bits", [] { return (js_undef("[1e4294967297]", 15) && js_undef("[1e-4294967297]", 16)) ? 0 : 1; }},
     {"json_zero_with_exponent", [] { return js_is("[0e1,0E-2,0.0e5,-0e1]", "[0,0,0,-0]"); }},
     {"json_partial_object_in_array", [] { return js_is("[{\"a\":1 x,2]", nullptr); }},
